@@ -110,9 +110,20 @@ CLAIMED.update({
    technique="contract-based ownership/frame conditions (confined vs shared fields declared in the contract files) checked against the typed AST and call graph"),
 })
 
+CLAIMED.update({
+ "C05": dict(category="proof",
+   text="v2 priority discipline. Environment of the property as assume-env clauses (listed in the evidence): every input has data waiting (a receive from an input never reports closed, the default case of io's select is not taken), inputs are buffered, the divider obeys the sum rule and the frame rule (what C14 proves of Fair and Rate). Proved under it, for every order and grouping of releases: the send hook requires gInflP[p] < strategic[p] (never more than its share); invariant SAT (actual[p] <= strategic[p] for every listed p) between rounds and ROUND (actual[p] + tactic[p] == strategic[p]) inside a round; calcTacticByAddUpToStrategic provably succeeds with tactic == strategic - actual - this needs 'sum over the priority list == sum of the map', proved with prefix sets pset(P,i), the restricted sum msumR and the invariant picked == msumR(strategic, pset) - msumR(actual, pset); prioritize exhausts the tactic, recalcTactic redistributes a zero remainder, so base ends with actual[p] == strategic[p] for every p (every priority holds exactly its share). NOT covered: v1 (during RemoveInput the in-flight items of a removed priority are outside the list, the list-sum argument does not hold there).",
+   design_ref="DESIGN.md §7 C05, §12.6",
+   note=TB + "the saturation environment and the sum/frame rule of the divider are assumptions of the property itself; v1 not covered.",
+   technique=GH2),
+ "C06": dict(category="proof",
+   text="Safety core of progress for the v2 priority discipline: (i) the two blocking waits for a release (getOneFeedback, waitZeroActual) carry the obligation gInfl > 0 evaluated before the receive - the discipline never waits for a release that cannot come; (ii) calcTactic is proved to return 'proceed' whenever nothing is in flight (uses the list-sum/map-sum link of C05: shares sum to HandlersQuantity over the priority list, so the add-up-to-strategic path succeeds), which is what (i) needs in waitCalcTactic. NOT decided: that every item is eventually delivered and freedom from starvation (liveness over infinite histories); the 'lone priority gets all handlers' clause; v1.",
+   design_ref="DESIGN.md §7 C06, §9, §12.6",
+   note=TB + "partial: only the safety core; assumes a divider obeying the sum and frame rules (C14) and the release protocol of C01; v1 not covered.",
+   technique=GH2),
+})
+
 NA = {
- "C05": "not decided: needs the inductive invariant actual[p] <= strategic[p] plus the link between the sum over the priority list and the sum of the map (ghost prefix sets); not built - claiming fragments would claim more than is proved (DESIGN.md 12.6)",
- "C06": "liveness (eventual delivery); its safety core reduces to 'with nothing in flight calcTactic proceeds', which needs the same list-sum/map-sum link as C05 (DESIGN.md 12.6)",
  "C18": "the subset enumeration of genCombinations and the determinism of the divider across calls are outside what the contracts express; the filledness defect shared with C15 was found and repaired through C15 (DESIGN.md 12.6)",
  "C19": "termination of goroutines over all schedules is a liveness property; the VC generator proves partial correctness of sequential code only (DESIGN.md §9)",
 }
